@@ -226,4 +226,70 @@ theorem cw_py_np (closed : V2 → V2 → Bool) (term : V2 → V2 → Rat) (sign 
       · simp only [Bool.not_true, Bool.false_eq_true, if_false, if_true, List.tail_cons]
         rw [hf]; congr 2; ring
 
+/-! ## earcut signed_area: previous point vs previous coordinates -/
+theorem signedArea_twin (term : Rat → Rat → Rat → Rat → Rat → Rat) (step : Rat → Rat → Rat → Rat → Rat → Rat × Rat × Rat)
+    (h : ∀ s px py x y, step s px py x y = (term s px py x y, x, y)) : signedAreaPy term = signedAreaPyx step := by
+  have hs : step = fun s px py x y => (term s px py x y, x, y) := by
+    funext s px py x y; exact h s px py x y
+  subst hs
+  funext pts
+  unfold signedAreaPy signedAreaPyx
+  have key : ∀ (l : List V2) (s : Rat) (p : V2),
+      (l.foldl (fun (st : Rat × V2) pt => (term st.1 st.2.x st.2.y pt.x pt.y, pt)) (s, p)).1
+        = (l.foldl (fun (st : Rat × Rat × Rat) pt => (term st.1 st.2.1 st.2.2 pt.x pt.y, pt.x, pt.y)) (s, p.x, p.y)).1 := by
+    intro l
+    induction l with
+    | nil => intro s p; rfl
+    | cons q l ih => intro s p; simp only [List.foldl_cons]; exact ih _ q
+  split_ifs
+  · rfl
+  · exact key pts 0 _
+
+/-! ## is_point_in_polygon_2d: list slicing (Python) vs index bounds (Cython) -/
+theorem pip_twin (K : PipK) : pipPy K = pipPyx K := by
+  funext pt poly tol
+  unfold pipPy pipPyx
+  by_cases h3 : poly.length < 3
+  · simp [h3]
+  · simp only [h3, if_false]
+    cases hc : K.closed (poly.getD 0 ⟨0, 0⟩) (poly.getD (poly.length - 1) ⟨0, 0⟩)
+    · simp only [Bool.false_eq_true, if_false, h3]
+      rw [List.take_length]
+    · simp only [if_true, List.length_dropLast]
+      by_cases h4 : poly.length - 1 < 3
+      · simp [h4]
+      · simp only [h4, if_false]
+        rw [List.dropLast_eq_take]
+        congr 1
+        simp only [List.getD_eq_getElem?_getD]
+        rw [List.getElem?_take_of_lt (by omega)]
+
+/-! ## Evaluator.derivative: only the binomial coefficients `binom k i` with k ≤ n are used -/
+theorem foldlM_congr_mem {σ ι : Type} (f g : σ → ι → Except PyErr σ) :
+    ∀ (l : List ι) (s : σ), (∀ k ∈ l, ∀ s, f s k = g s k) → l.foldlM f s = l.foldlM g s := by
+  intro l
+  induction l with
+  | nil => intro s _; rfl
+  | cons a l ih =>
+    intro s h
+    simp only [List.foldlM_cons, h a (List.mem_cons_self ..)]
+    cases g s a with
+    | error e => rfl
+    | ok x => exact ih x (fun k hk => h k (List.mem_cons_of_mem _ hk))
+
+theorem derivRational_binom (K : DerivK) (b1 b2 : Nat → Nat → Rat) (ders : List (List Rat)) (weights : List Rat) (cps : List V3)
+    (span : Int) (p n : Nat) (h : ∀ k, k ≤ n → ∀ i, b1 k i = b2 k i) :
+    derivRational K b1 ders weights cps span p n = derivRational K b2 ders weights cps span p n := by
+  unfold derivRational
+  congr 1
+  funext hw
+  unfold forRange
+  apply foldlM_congr_mem
+  intro k hk CK
+  have hk' : k ≤ n := by
+    have := (List.mem_range'_1.mp hk).2
+    omega
+  have hb : b1 k = b2 k := funext (h k hk')
+  simp only [hb]
+
 end EzdxfVerif.TwinLoops
